@@ -30,7 +30,9 @@ func VerifPostfinanceRow() {
 	reg := registry.New()
 	acc := reg.Accounts().MustGet("Assets:Postfinance")
 	p := Parser{registry: reg, reader: csv.NewReader(strings.NewReader(text)), account: acc, builder: journal.New()}
-	err := p.parse()
+	var err error
+	stdout := v.CaptureStdout(func() { err = p.parse() })
+	v.Assert(stdout == "", "importer-writes-nothing-but-the-journal")
 	v.Assert(err == nil, "well-formed-statement-is-imported")
 	if err != nil {
 		return
